@@ -1150,7 +1150,15 @@ impl Transformer {
             }
         }
         if let Some(svg_style) = &self.context.config.svg_style {
-            new_svg_attrs.insert("style", svg_style.as_str());
+            // (the root's own style stays, after the configured one - as an element's
+            // own style follows that of its defaults)
+            let style = match orig_svg_attrs.get("style").map(|own| own.trim()) {
+                Some(own) if !own.is_empty() => {
+                    format!("{}; {}", svg_style.trim().trim_end_matches(';'), own)
+                }
+                _ => svg_style.clone(),
+            };
+            new_svg_attrs.insert("style", style);
         }
         // If width or height are provided, leave width/height/viewBox alone.
         let orig_width = orig_svg_attrs.get("width");
